@@ -13,6 +13,7 @@ import (
 	"net/http/httptest"
 	"os"
 	"reflect"
+	"runtime"
 	"runtime/debug"
 	"sort"
 	"strings"
@@ -145,6 +146,7 @@ type wWorld struct {
 	reqN    int
 	tokAuth auth.AuthHandler
 	panicked any
+	watchdog *time.Timer
 }
 
 const wStoreCfg = `{"uid_key":"la6YsO+bNX/+XIkOqc5Svw==","max_results":1024,"use_adapter":"verifmem"}`
@@ -210,6 +212,16 @@ func wBoot(cfg wConfig) *wWorld {
 	}
 	w := &wWorld{cfg: cfg}
 	wCur = w
+	// Watchdog on the virtual clock: a case needs minutes of virtual time; if hours pass, the
+	// bubble's root goroutine is blocked for good (e.g. cleanUp waiting on in-flight request
+	// bookkeeping) while timers keep the bubble busy. Dump the goroutines and leave: the driver
+	// finds the case in the write-ahead log.
+	w.watchdog = time.AfterFunc(5*time.Hour, func() {
+		buf := make([]byte, 1<<20)
+		n := runtime.Stack(buf, true)
+		fmt.Fprintf(os.Stderr, "VERIF-HANG: virtual clock ran 5h past the start of the case; goroutines:\n%s\n", buf[:n])
+		os.Exit(3)
+	})
 	w.tokAuth = store.Store.GetAuthHandler("token")
 	if !w.tokAuth.IsInitialized() {
 		if err := w.tokAuth.Init(json.RawMessage(wTokenCfg), "token"); err != nil {
@@ -282,6 +294,7 @@ func wBoot(cfg wConfig) *wWorld {
 // shutdown closes every session, stops hub and user cache. The bubble must then end clean.
 func (w *wWorld) shutdown() {
 	defer func() { wLastElapsed = time.Since(wCaseStart) }()
+	defer w.watchdog.Stop()
 	for _, ss := range w.sess {
 		w.disconnect(ss)
 	}
@@ -712,6 +725,9 @@ func wEmergencyStop() {
 	defer func() { recover() }()
 	w := wCur
 	if w != nil {
+		if w.watchdog != nil {
+			w.watchdog.Stop()
+		}
 		for _, ss := range w.sess {
 			if ss == nil {
 				continue
